@@ -50,6 +50,17 @@ CLAIMS = {
          "PARTIAL: token validation (jsonwebtoken: signature, expiry) is trusted; 'no request is served before a valid token' and the privilege/pattern table per request kind are properties of the session handler, modelled in Model/Auth.v auth_requirement but validated only through the session engine.",
          "Trusted: Coq kernel (no axioms), extraction, glue, Model/Auth.v (tie: exhaustive differential check through the `verif` re-export of auth::pattern_matches).",
          "Coq soundness proofs of the containment + exhaustive differential check + brute-force oracle"),
+ "C09": ("Theorems: C09_node_roundtrip / C09_entry_roundtrip (the stored tree, every value, plain/CAS kind and CAS version up to u64::MAX survive the file representation, outside the exactly characterised class F8), C09_registrations_roundtrip, "
+         "C09_load_flush (for every server state and every previous directory content: load(flush) = lastwills . gravegoods (user part of the store, $SYS stripped), directory unchanged by the load), C09_F8_refuted. "
+         "Correspondence: generated stores (segments named t/v, tag look-alike values, nested objects, big/fractional numbers, CAS versions to u64::MAX, registrations) -> real flush -> directory listing compared byte for byte with the model -> real load -> dump; hand-laid v1 / v2 / v3 directories in both toggle states with two different snapshots and broken slots. "
+         "PARTIAL: the text layer (serde_json parse/print of the files, sha256) is abstracted in the theorem and exercised only by the correspondence; the legacy v2/v1 loaders are modelled and compared, not covered by a theorem.",
+         "Trusted: Coq kernel (no axioms), extraction, glue, Model/Persist.v + Model/Entry.v (tie: directory contents and reloaded state compared on every run through the `verif` hooks json_flush_synchronous / json_load).",
+         "Coq round-trip and load-after-flush proofs + differential check on real directories"),
+ "C10": ("Theorems for every directory content, server state and crash point: C10_crash_before_flip_keeps_active_slot (a flush dying at any of the 16 crash points before the flip leaves the selector and the four files of the active slot untouched), C10_crash_recovers_last_completed (the next start then recovers exactly what a start without that flush would have: store and registrations of the last completed snapshot from one slot), "
+         "C10_completed_flush_is_selected and C10_crash_after_flip_is_complete (a flush that completes or dies after the flip has switched to a slot holding its own store and its own registrations with valid checksums). These hold for the repaired protocol (fix commits 665300d, c036057, 633943b; the pre-fix code violated C10 at 15 of 17 crash points: corpus/F9-demonstration-*). "
+         "PARTIAL: the composition into an invariant over arbitrary flush/crash/restart chains is decided by the correspondence (complete enumeration of crash points for histories of 1-4 flushes, two-crash chains, random multi-flush histories; directory listing and recovered state vs model) and the recovery oracle, not yet by a Coq induction. Process-crash model only (completed operations persist in order); two concurrent flushes are outside the model.",
+         "Trusted: as C09, plus the crash-point hook in v3.rs (simulated kill = early return at a crash point; a torn write leaves the first half of the data).",
+         "Coq proof of the flush protocol steps at every crash point + exhaustive crash-point enumeration against the real code"),
 }
 def chk(pid, text, note, technique):
     return {"property_id": pid, "quick_cmd": f"./wv check {pid} --tier quick", "thorough_cmd": f"./wv check {pid} --tier thorough",
